@@ -391,9 +391,19 @@ class Effects:
         return list(seen.values())
 
     # -- nondeterminism -----------------------------------------------------------------
-    def nondet_calls(self, fi: FunctionInfo) -> List[Event]:
+    def inlined_walker(self, fi: FunctionInfo) -> Walker:
+        """fi with its private same-class / same-module helpers inlined (value flow across an extracted helper)."""
+        key = "inl:" + fi.fq
+        if key not in self.walkers:
+            def private(f, fi=fi):
+                return f.name.startswith("_") and not f.name.startswith("__") and f.module == fi.module \
+                    and (f.cls is None or f.cls == fi.cls or (fi.cls and f.cls in [c.name for c in self.repo.mro(fi.cls)]))
+            self.walkers[key] = Walker(self.repo, fi, self_class=fi.cls, inline=private)
+        return self.walkers[key]
+
+    def nondet_calls(self, fi: FunctionInfo, inlined: bool = False) -> List[Event]:
         out = []
-        for ev in self.walker(fi).events:
+        for ev in (self.inlined_walker(fi) if inlined else self.walker(fi)).events:
             if ev.kind == "call" and ev.target is not None and ev.target[0] == "mod":
                 if any(ev.target[1].startswith(p) for p in NONDET):
                     out.append(ev)
@@ -401,13 +411,15 @@ class Effects:
                 out.append(ev)
         return out
 
-    def flows_only_to_logger(self, fi: FunctionInfo, src: Event) -> Tuple[bool, str]:
+    def flows_only_to_logger(self, fi: FunctionInfo, src: Event, inlined: bool = False) -> Tuple[bool, str]:
         """Does the value produced by `src` reach anything but logger arguments (and locals)?"""
-        w = self.walker(fi)
+        w = self.inlined_walker(fi) if inlined else self.walker(fi)
         val = src.value
         for ev in w.events:
             if ev is src or ev.kind == "bind":
                 continue
+            if inlined and ((ev.kind == "return" and ev.fn is not w.entry) or (ev.kind == "call" and ev.name == "<inline>")):
+                continue  # handed to / back from an inlined private helper: its uses there are events of this walk
             tops = [x for x in (ev.target, ev.value) if x is not None] + list(ev.args) + [v for _, v in ev.kwargs]
             tops += [g for g, _ in ev.guards]
             hit = any(val == s for top in tops for s in subterms(top))
